@@ -91,8 +91,10 @@ static void gen_sig(int tier)
 			int r = R(100);
 			if (r < 30)
 				gx_add_op(CTX_DRV, t, 0, OP_SLEEP, 0, gx_delta(), 0, 0);
-			else if (r < 90)
+			else if (r < 86)
 				gx_add_op(CTX_DRV, t, 0, OP_RAISE, signums[P(75) ? 0 : 1], P(55) ? 0 : 1 + R(G->nthr), 0, 0);
+			else if (r < 90)
+				gx_add_op(CTX_DRV, t, 0, OP_RFORK, signums[P(75) ? 0 : 1], 0, 0, 0);
 			else
 				gx_add_op(CTX_DRV, t, 0, OP_YIELD, 0, 0, 0, 0);
 		}
